@@ -53,7 +53,7 @@ type c17Variant struct {
 
 func c17Variants(dev glow.PublicKey) map[string]func(cur string) c17Variant {
 	srv := func(name string, banned bool, port uint16, gca string) server.AuthorizedServer {
-		n := map[string]int{"S0": 10, "S1": 1, "S2": 2, "S3": 3, "N1": 7}[name]
+		n := map[string]int{"S0": 10, "S1": 1, "S2": 2, "S3": 3, "N1": 7, "N2": 8}[name]
 		return signedServer(name, banned, fmt.Sprintf("10.0.0.%d", n), port, key(gca).Priv)
 	}
 	mig := func(equip glow.PublicKey, outer, inner string) func(string) c17Variant {
@@ -108,6 +108,13 @@ func c17Variants(dev glow.PublicKey) map[string]func(cur string) c17Variant {
 			return []server.AuthorizedServer{srv("S2", true, 7000, c), srv("S2", false, 7000, c)}
 		}),
 		"M":      mig(dev, "cur", "G3"),
+		// a migration order whose (fully signed) list names one server three times: authorization, ban, and a second server
+		"Mdup": func(cur string) c17Variant {
+			em := server.EquipmentMigration{Equipment: dev, NewGCA: key("G3").Pub, NewShortID: 77}
+			em.NewServers = []server.AuthorizedServer{srv("N1", false, 7000, "G3"), srv("N1", true, 7000, "G3"), srv("N2", false, 7000, "G3")}
+			em.Signature = glow.Sign(refMigrationSigningBytes(em), key(cur).Priv)
+			return c17Variant{List: em.NewServers, Mig: &em, DevKey: dev}
+		},
 		"Mouter": mig(dev, "G2", "G3"),
 		"Minner": mig(dev, "cur", "cur-inner"),
 		"Mother": mig(key("kOther").Pub, "cur", "G3"),
@@ -116,7 +123,7 @@ func c17Variants(dev glow.PublicKey) map[string]func(cur string) c17Variant {
 
 func allScripted() map[string]scriptedServer {
 	out := map[string]scriptedServer{}
-	for name, n := range map[string]int{"S0": 10, "S1": 1, "S2": 2, "S3": 3, "N1": 7} {
+	for name, n := range map[string]int{"S0": 10, "S1": 1, "S2": 2, "S3": 3, "N1": 7, "N2": 8} {
 		out[name] = scriptedServer{Name: name, Key: key("server-" + name), Addr: fmt.Sprintf("10.0.0.%d", n), Port: 7000}
 	}
 	return out
@@ -150,6 +157,7 @@ func c17CliExec(raw json.RawMessage, hist []string, deep bool) *bfsResult {
 	}()
 	m := &cliModel{GCA: "G1", ID: 4294967295, Servers: map[glow.PublicKey]client.GCAServer{s0.Key.Pub: s0.entry()}}
 	variants := c17Variants(dev.Pub)
+	var lastDialed glow.PublicKey // the server contacted last
 	var current string  // reply variant for this round
 	var roundGCA string // the client's GCA when the round starts
 	// every scripted server answers with the current variant, signed with its own key
@@ -158,6 +166,7 @@ func c17CliExec(raw json.RawMessage, hist []string, deep bool) *bfsResult {
 		for _, port := range []uint16{7000, 7100} {
 			addr := fmt.Sprintf("%s:%d", s.Addr, port+1)
 			hub.TCP[addr] = func() (net.Conn, error) {
+				lastDialed = s.Key.Pub
 				return &lazyConn{handler: func(req []byte) []byte {
 					cur := roundGCA
 					vf := variants[current]
@@ -244,12 +253,19 @@ func c17CliExec(raw json.RawMessage, hist []string, deep bool) *bfsResult {
 				}
 			}
 		}
+		primaryBefore := w.C.VerifState().PrimaryServer
 		ok, p, hung := w.syncRound(0)
 		if p != "" || hung {
 			poisoned = true
 			res.fail("panic-or-hang/sync-round/"+op, map[string]interface{}{"history": hist, "panic": firstLine(p), "hung": hung})
 			res.Expand = false
 			return res
+		}
+		// a round may make the server it has just talked to the primary (even if that server then reports its own
+		// ban); picking any OTHER server that the adopted map says is banned is selecting a known-banned server
+		if stp := w.C.VerifState(); p == "" && !hung && stp.PrimaryServer != primaryBefore && stp.Servers[stp.PrimaryServer].Banned && stp.PrimaryServer != lastDialed {
+			res.fail("banned-server-selected-as-primary/"+op, map[string]interface{}{"history": hist})
+			res.Expand = false
 		}
 		if isLast && ok != valid {
 			res.fail("round-result/"+op, map[string]interface{}{"history": hist, "round_ok": ok, "model_expects": valid})
@@ -302,7 +318,7 @@ func init() {
 		run := newRun("C17", tier, "model_checking")
 		p := pool.New(0)
 		// server side
-		arg := opsArg{Name: "c17", Init: []string{"reg:G1:temp", "now:100"}, RestartCheck: false}
+		arg := opsArg{Name: "c17", Init: []string{"reg:G1:temp", "now:100", "auth:0:kA:1000:G1"}, RestartCheck: false} // one device, so that sync replies (which carry the list) are requested after every step
 		sops := []string{
 			"sauth:S1:0:1:G1", "sauth:S1:0:4:G1", "sauth:S1:1:1:G1", "sauth:S1:1:4:G1", "sauth:S2:0:1:G1", "sauth:S2:1:1:G1",
 			"sauth:S1:0:1:G2", "sauth:S1:1:1:temp", "sauth:S3:0:1:srv",
@@ -315,7 +331,7 @@ func init() {
 		}
 		st1 := bfsPool(run, p, "ops", arg, depth, 0, func([]string) []string { return sops })
 		// client side
-		cops := []string{"L1", "L12", "L1b", "L1p", "L0b", "Lbad", "Lmix", "Ldupforged", "Ldupgenuine", "Ldup0forged", "Ldupbanfirst", "M", "Mouter", "Minner", "Mother", "restart"}
+		cops := []string{"L1", "L12", "L1b", "L1p", "L0b", "Lbad", "Lmix", "Ldupforged", "Ldupgenuine", "Ldup0forged", "Ldupbanfirst", "M", "Mdup", "Mouter", "Minner", "Mother", "restart"}
 		cdepth := 4
 		if tier == "thorough" {
 			cdepth = 5
